@@ -4,6 +4,7 @@ from . import core
 from .core import SR, SB, Ctx, rv, eqc, Fraction
 
 VERIF = os.path.dirname(os.path.dirname(os.path.abspath(__file__)))
+OUT = os.environ.get('VERIF_OUT', VERIF)
 
 
 def _f(x):
@@ -324,6 +325,10 @@ class Env:
 
     def claim_eq(self, key, a, b, under=None, per_element=True, timeout_ms=None, abstract=None, lemmas=None):
         """a == b (scalars or arrays of equal shape), one obligation per element."""
+        if a is None or b is None:
+            # a value that should be there is missing: a structural fact, not arithmetic
+            self.claim_true(key, a is None and b is None)
+            return
         if isinstance(a, (_np.ndarray, list, tuple)) or isinstance(b, (_np.ndarray, list, tuple)):
             aa = _np.asarray(a); ba = _np.asarray(b)
             if aa.shape != ba.shape:
@@ -408,10 +413,10 @@ class Env:
 
     def _replay(self, key, vals):
         """run this harness instance concretely, unpatched, in a fresh process; True if a claim fails there."""
-        os.makedirs(os.path.join(VERIF, 'replays'), exist_ok=True)
+        os.makedirs(os.path.join(OUT, 'replays'), exist_ok=True)
         spec = dict(property=self.prop, instance=self.inst, key=key, values=vals)
         h = hashlib.sha256(json.dumps(spec, sort_keys=True).encode()).hexdigest()[:10]
-        path = os.path.join(VERIF, 'replays', '%s-%s-%s.json' % (self.prop, self.inst.get('name', 'x').replace('/', '_'), h))
+        path = os.path.join(OUT, 'replays', '%s-%s-%s.json' % (self.prop, self.inst.get('name', 'x').replace('/', '_'), h))
         with open(path, 'w') as f:
             json.dump(spec, f, indent=1, sort_keys=True)
         self.replays_run += 1
